@@ -418,6 +418,13 @@ func genScript(t *rapid.T) Script {
 				"OCI-Chunk-Min-Length":  {"", "-1", "0", "9223372036854775807", "abc", "99999999999999999999", "1"},
 			}
 			val := rapid.SampledFrom(vals[name]).Draw(t, "headerValue")
+			if name == "Link" && rapid.Bool().Draw(t, "linkParams") {
+				// a well-formed target followed by parameters of every shape
+				val = `</v2/foo/tags/list?n=2&last=b>` + rapid.SampledFrom([]string{`; rel="`, `; rel=`, `;rel="next`, `; rel="prev"`, `; ;;`, `; rel="next"; x`, `; rel`, `;`, `; rel="next", <`, `; rel=""`, `; rel=next`, `; REL="NEXT"`, `;="`, `; rel="\`}).Draw(t, "linkTail")
+				if rapid.IntRange(0, 3).Draw(t, "linkRandomTail") == 0 {
+					val = `</v2/foo/tags/list?n=2&last=b>` + rapid.StringOfN(rapid.SampledFrom([]rune(`;= "relnxt,<>\`)), 0, 10, -1).Draw(t, "linkTailRandom")
+				}
+			}
 			if val == "" {
 				delete(r.Headers, name)
 			} else {
@@ -445,7 +452,7 @@ func genScript(t *rapid.T) Script {
 var prop = &vt.Prop[Script]{
 	ID:   "C18",
 	Name: "ClientAnyResponse",
-	Rule: "client operation = each client method (reads drained to EOF, listings drained, chunked writer: open / Write small / Write 100 KiB / Size / Close / Commit / Size+ID / Commit again / Write / Cancel / Close, resume with explicit offset and with -1) x ListPageSize in {-5,-1,0,1,2,1000} x chunk hint x a script of 0-8 responses, each the expected answer distorted in one dimension: status from every class (2xx the operation does not expect, 3xx without Location, 4xx, 5xx), one of Location / Range / Content-Range / Docker-Content-Digest / Link / Content-Type / OCI-Chunk-Min-Length absent / empty / malformed / contradictory / huge, body empty / truncated / wrong-shape / garbage / null / 2 MiB, Content-Length unknown / too long / too short; served by a scripted RoundTripper that sets Response.Request and fails every request after the script is exhausted; oracle = no panic (also none when a returned error is printed, unwrapped and asked for its code, detail, status and response body), every individual API call returns within 10 s and issues at most (answers still unconsumed) + 1 requests; non-trivial = a distorted response was actually consumed; distinct = (operation, page size, consumed fault vector)",
+	Rule: "client operation = each client method (reads drained to EOF, listings drained, chunked writer: open / Write small / Write 100 KiB / Size / Close / Commit / Size+ID / Commit again / Write / Cancel / Close, resume with explicit offset and with -1) x ListPageSize in {-5,-1,0,1,2,1000} x chunk hint x a script of 0-8 responses, each the expected answer distorted in one dimension: status from every class (2xx the operation does not expect, 3xx without Location, 4xx, 5xx), one of Location / Range / Content-Range / Docker-Content-Digest / Link (incl. well-formed targets followed by parameters of every shape) / Content-Type / OCI-Chunk-Min-Length absent / empty / malformed / contradictory / huge, body empty / truncated / wrong-shape / garbage / null / 2 MiB, Content-Length unknown / too long / too short; served by a scripted RoundTripper that sets Response.Request and fails every request after the script is exhausted; oracle = no panic (also none when a returned error is printed, unwrapped and asked for its code, detail, status and response body), every individual API call returns within 10 s and issues at most (answers still unconsumed) + 1 requests; non-trivial = a distorted response was actually consumed; distinct = (operation, page size, consumed fault vector)",
 	Gen:  genScript,
 	Run:  run,
 }
